@@ -458,6 +458,17 @@ pub fn prop_lines(bytes: &[u8]) -> String {
     if let Some(d) = crate::util::path_roundtrip_check(&m1, &text) {
         return format!("FAIL {d}");
     }
+    // the text reaches a sink that buffers: `encode` hands every byte over before it returns Ok (seed C04-s: the final flush removed;
+    // a Vec / String target does not notice)
+    {
+        let mut bw = std::io::BufWriter::with_capacity(1 << 16, Vec::new());
+        if m1.clone().encode(&mut bw).is_err() {
+            return "FAIL encode into a BufWriter failed".into();
+        }
+        if bw.get_ref().as_slice() != text.as_bytes() {
+            return format!("FAIL encode returned Ok but only {} of {} bytes reached the sink behind a BufWriter", bw.get_ref().len(), text.len());
+        }
+    }
     let lines: Vec<&str> = text.split('\n').collect();
     let Some(first) = lines.first() else { return "FAIL empty output".into() };
     if !first.starts_with("osu file format v") || first["osu file format v".len()..].parse::<i32>() != Ok(m1.format_version) {
